@@ -174,6 +174,7 @@ type stmtGen struct {
 	collLocals map[string]string
 	collStored bool
 	statefulCond bool
+	after        *dsl.Stmt // a statement that has to follow the one just generated
 }
 
 var c02Locals = map[byte][]string{'i': {"a", "b", "c", "d"}, 's': {"s", "u"}, 'b': {"p", "q"}, 'f': {"x"}}
@@ -476,6 +477,10 @@ func (g *stmtGen) block(depth int, inLoop bool, maxStmts int) *dsl.Block {
 	for i := 0; i < n && g.budget > 0; i++ {
 		g.budget--
 		b.Stmts = append(b.Stmts, g.stmt(depth, inLoop))
+		if g.after != nil {
+			b.Stmts = append(b.Stmts, g.after)
+			g.after = nil
+		}
 		if pct(t, g.lbl("tr_after"), 60) {
 			b.Stmts = append(b.Stmts, g.trace())
 		}
@@ -573,6 +578,13 @@ func (g *stmtGen) stmt(depth int, inLoop bool) *dsl.Stmt {
 		sort.Slice(colls, func(i, j int) bool { return colls[i].name < colls[j].name })
 		cl := colls[uni(t, g.lbl("coll"), 0, len(colls)-1)]
 		s := &dsl.Stmt{K: dsl.SForRange, LoopID: id, KeyVar: v, Coll: cl.name}
+		if !cl.str && cl.name != "mi" && pct(t, g.lbl("silentkey"), 25) {
+			// the body never mentions the key; the key is an ordinary local that holds the last
+			// index after the loop and may be read by later statements
+			s.Body = g.nested(depth, true, func() *dsl.Block { return g.block(depth+1, true, 3) })
+			g.after = dsl.CallStmt(dsl.Call("tr", dsl.Var(v))) // the key, read after the loop
+			return s
+		}
 		if cl.str {
 			g.strKV = append(g.strKV, v)
 		} else if cl.name != "mi" {
